@@ -248,6 +248,12 @@ func (s *script) run(first []byte) (encrypted []byte) {
 		panic(err)
 	}
 	a := new(big.Int).SetBytes(abuf)
+	switch s.k.gaKind {
+	case 9:
+		a = big.NewInt(1) // g_a = g: the peer can finish the exchange consistently
+	case 10:
+		a = big.NewInt(int64(2 + s.tape.Choose(simrt.Fault, 60))) // g_a = g^a far below the safety bound, exponent known
+	}
 	ga := gaOf(s.k.gaKind, g, a, p)
 	if s.k.gaKind == 0 {
 		// an honest server keeps g_a inside the safety range
